@@ -44,7 +44,14 @@ type RCase struct {
 	// Sweep: a third period. The second connection stays up until the expiry deadline of the FIRST offline
 	// period has passed, the broker's periodic expiry sweep runs, and the client disconnects and reconnects.
 	Sweep bool `json:",omitempty"`
+	// Restart: the broker runs on the durable (redis) store and is stopped and started again on the same store while
+	// the client is offline. What the session was told last (CONNECT or DISCONNECT) is what the new process applies.
+	// Only decided where "from the end of the connection" and "from the restart" give the same answer.
+	Restart bool `json:",omitempty"`
 }
+
+// RedisCfg (set by the registration code) switches a configuration to the redis back end on a private fake redis.
+var RedisCfg func(c *config.Config) (func(), error)
 
 // effective expiry (seconds) after the first connection ended; -1 = never expires in the test's time scale
 func (c RCase) effExpiry() int64 {
@@ -80,14 +87,39 @@ func subsOf(b *broker.Broker, id string) []string {
 
 func runResume(c RCase, idx int) (fs []finding, incon string, rerr error) {
 	add := func(sig, what string) { fs = append(fs, finding{sig, what}) }
-	b, err := broker.Start(broker.Options{Cfg: func(cf *config.Config) {
-		cf.MQTT.SessionExpiry = time.Duration(c.CfgExpiry) * time.Second
-		cf.MQTT.MessageExpiry = 0
-	}})
+	var redisAddr string
+	var closeRedis func()
+	startBroker := func() (*broker.Broker, error) {
+		return broker.Start(broker.Options{Cfg: func(cf *config.Config) {
+			cf.MQTT.SessionExpiry = time.Duration(c.CfgExpiry) * time.Second
+			cf.MQTT.MessageExpiry = 0
+			if !c.Restart {
+				return
+			}
+			if redisAddr == "" {
+				if cl, err := RedisCfg(cf); err == nil {
+					closeRedis, redisAddr = cl, cf.Persistence.Redis.Addr
+				}
+			} else {
+				cf.Persistence.Type = config.PersistenceTypeRedis
+				cf.Persistence.Redis.Addr = redisAddr
+			}
+		}})
+	}
+	if c.Restart && RedisCfg == nil {
+		return nil, "", fmt.Errorf("no redis back end registered")
+	}
+	b, err := startBroker()
 	if err != nil {
 		return nil, "", err
 	}
-	defer b.Stop(step)
+	defer func() {
+		b.Stop(step)
+		if closeRedis != nil {
+			closeRedis()
+		}
+	}()
+	var tRestart time.Duration
 	id := fmt.Sprintf("r%d", idx)
 	v := mqttx.Version(c.V)
 	mk := func(clean bool) *mqttx.Packet {
@@ -160,7 +192,22 @@ func runResume(c RCase, idx int) (fs []finding, incon string, rerr error) {
 		if c.Terminate {
 			b.Srv.ClientService().TerminateSession(id)
 		}
-		time.Sleep(time.Until(time.Now().Add(tEnd + time.Duration(c.OfflineMs)*time.Millisecond - broker.Now())))
+		base := tEnd
+		if c.Restart {
+			if err := b.Stop(step); err != nil {
+				return nil, "", fmt.Errorf("stop before the restart: %w", err)
+			}
+			b, err = startBroker()
+			if err != nil {
+				add("restart.failed", "the broker does not start on the store its predecessor left: "+err.Error())
+				return fs, "", nil
+			}
+			tRestart = broker.Now()
+			if E > 0 && int64(c.OfflineMs) > E*1000 {
+				base = tRestart // "expired" must hold counted from the restart as well
+			}
+		}
+		time.Sleep(time.Until(time.Now().Add(base + time.Duration(c.OfflineMs)*time.Millisecond - broker.Now())))
 	}
 	tRe := broker.Now()
 	c2, err := wire.Dial(id+"b", b.Addr, v)
@@ -189,6 +236,9 @@ func runResume(c RCase, idx int) (fs []finding, incon string, rerr error) {
 		exists, why = false, "terminated"
 	default:
 		offLo, offHi := tRe-tEnd, tReDone-tEnd
+		if c.Restart {
+			offLo = tRe - tRestart // a restarted broker may count from its start
+		}
 		exp := time.Duration(E) * time.Second
 		switch {
 		case offLo > exp+margin:
@@ -201,6 +251,9 @@ func runResume(c RCase, idx int) (fs []finding, incon string, rerr error) {
 	cleanEff := c.CleanStart || (c.V != 5 && c.ReqExpiry == 0)
 	wantSP := exists && !cleanEff
 	kind := fmt.Sprintf("v=%d:end=%s:takeover=%v:connected_longer_than_expiry=%v", c.V, c.End, c.Takeover, E > 0 && int64(c.ConnectFor) > E*1000)
+	if c.Restart {
+		kind += ":restart=true"
+	}
 	if ack2.SessionPresent != wantSP {
 		add(fmt.Sprintf("resume.session_present:got=%v:want=%v:%s", ack2.SessionPresent, wantSP, kind),
 			fmt.Sprintf("CONNACK session present = %v, want %v (effective expiry %d s, connected %d ms, offline %d ms, terminate=%v, clean=%v%s)", ack2.SessionPresent, wantSP, E, c.ConnectFor, c.OfflineMs, c.Terminate, cleanEff, ifs(why != "", "; session ended: "+why, "")))
@@ -331,6 +384,15 @@ func resumeCases(rng *rand.Rand, n int) []RCase {
 		{V: 5, CfgExpiry: 2, ReqExpiry: 3600, End: "disconnect", OfflineMs: 2900},                                         // capped by the configuration
 		{V: 5, CfgExpiry: 7200, ReqExpiry: 3600, End: "disconnect", OfflineMs: 100, Sweep: true},
 	}
+	if RedisCfg != nil {
+		cs = append(cs,
+			RCase{V: 5, CfgExpiry: 7200, ReqExpiry: 1, End: "disconnect_new_expiry", NewExpiry: 3, OfflineMs: 1900, Restart: true},    // raised at DISCONNECT, restart
+			RCase{V: 5, CfgExpiry: 7200, ReqExpiry: 3600, End: "disconnect_new_expiry", NewExpiry: 1, OfflineMs: 1900, Restart: true}, // lowered at DISCONNECT, restart
+			RCase{V: 5, CfgExpiry: 7200, ReqExpiry: 3600, End: "disconnect_new_expiry", NewExpiry: 0, OfflineMs: 100, Restart: true},  // ended at DISCONNECT, restart
+			RCase{V: 5, CfgExpiry: 2, ReqExpiry: 3600, End: "close", OfflineMs: 2900, Restart: true},                                  // capped, restart
+			RCase{V: 4, CfgExpiry: 7200, ReqExpiry: 1, End: "close", OfflineMs: 300, Restart: true, Sweep: true},
+		)
+	}
 	for len(cs) < n {
 		c := RCase{V: []byte{4, 5, 5, 3}[rng.Intn(4)], CfgExpiry: []uint32{2, 7200}[rng.Intn(2)], End: []string{"disconnect", "close", "disconnect_new_expiry"}[rng.Intn(3)]}
 		if c.V == 5 {
@@ -375,6 +437,7 @@ func resumeCases(rng *rand.Rand, n int) []RCase {
 		}
 		c.CleanStart = rng.Intn(5) == 0
 		c.Sweep = rng.Intn(2) == 0
+		c.Restart = RedisCfg != nil && !c.Takeover && rng.Intn(4) == 0
 		cs = append(cs, c)
 	}
 	return cs
@@ -728,6 +791,9 @@ func Run(r *monitor.Run) {
 			r.Violation(f.Sig, f.What, map[string]any{"resume_case": c})
 		}
 		r.Count("resume_cases", 1)
+		if c.Restart {
+			r.Count("resume_cases_with_broker_restart_on_redis", 1)
+		}
 		r.Nontrivial("resume|" + monitor.J(c))
 		if i == 0 {
 			r.Sample(map[string]any{"resume_case": c})
